@@ -66,6 +66,14 @@ SAFE_NEG = {
     "unsize slice length forged": "let g = Gc::new(mc, [1u8, 2]); let _s: Gc<[u8; 3]> = gc_arena::unsize!(g => [u8; 3]);",
     "erase then typed deref": "let g = Gc::new(mc, 1u8); let e = Gc::erase(g); let _v: &u64 = &*e;",
     "erase_kind changes type": "let g = Gc::new(mc, 1u8); let _e: Gc<u64> = Gc::erase_kind(g);",
+    # unsize! must only unsize: a target reachable from the pointee by a DEREF coercion is another object / non-GC memory
+    "unsize through String deref": "let g = Gc::new(mc, String::from(\"x\")); let _s: Gc<str> = gc_arena::unsize!(g => str);",
+    "unsize through Vec deref": "let g = Gc::new(mc, vec![1u8, 2]); let _s: Gc<[u8]> = gc_arena::unsize!(g => [u8]);",
+    "unsize weak through Vec deref": "let g = Gc::new(mc, vec![1u8, 2]); let _s: gc_arena::GcWeak<[u8]> = gc_arena::unsize!(Gc::downgrade(g) => [u8]);",
+    "unsize through Box deref": "let g = Gc::new(mc, Box::new(5u32)); let _s: Gc<u32> = gc_arena::unsize!(g => u32);",
+    "unsize through Gc deref": "let g = Gc::new(mc, Gc::new(mc, 5u32)); let _s: Gc<u32> = gc_arena::unsize!(g => u32);",
+    "unsize through Rc<str> deref": "let g = Gc::new_static(mc, std::rc::Rc::<str>::from(\"x\")); let _s: Gc<str> = gc_arena::unsize!(g => str);",
+    "unsize to the same sized type": "let g = Gc::new(mc, 5u32); let _s: Gc<u64> = gc_arena::unsize!(g => u64);",
     "as_thin without metadata": "let g = Gc::new(mc, [1u8, 2]); let d: Gc<[u8]> = gc_arena::unsize!(g => [u8]); let _t = Gc::as_thin(d);",
 }
 
